@@ -74,8 +74,13 @@ func (c *Ctx) refsAllCrossChain(rule, key string, fn *ssa.Function) {
 	sel := func(i *ssa.If) (bool, bool) {
 		// bytes.Compare(hash[0:1], {PrefixCrossChain}) != 0  => reject ; required arm: == 0
 		if m, arm := condCmp(func(v ssa.Value) bool {
-			return ssau.IsCallTo(v, func(cm *ssa.CallCommon) bool { f := cm.StaticCallee(); return f != nil && f.String() == "bytes.Compare" }) &&
-				ssau.DependsOn(v, func(x ssa.Value) bool { return ssau.IsFieldOf(x, "Output", "ProgramHash") || ssau.IsFieldOf(x, "", "ProgramHash") })
+			return ssau.IsCallTo(v, func(cm *ssa.CallCommon) bool {
+				f := cm.StaticCallee()
+				return f != nil && f.String() == "bytes.Compare"
+			}) &&
+				ssau.DependsOn(v, func(x ssa.Value) bool {
+					return ssau.IsFieldOf(x, "Output", "ProgramHash") || ssau.IsFieldOf(x, "", "ProgramHash")
+				})
 		}, isConstInt(0), token.EQL, true)(i); m {
 			return true, arm
 		}
@@ -373,7 +378,10 @@ func runC33(c *Ctx) {
 			}
 		}
 		// program code must equal the redeem script of the aggregated key
-		crs := func(cm *ssa.CallCommon) bool { f := cm.StaticCallee(); return f != nil && f.Name() == "CreateSchnorrRedeemScript" }
+		crs := func(cm *ssa.CallCommon) bool {
+			f := cm.StaticCallee()
+			return f != nil && f.Name() == "CreateSchnorrRedeemScript"
+		}
 		sel := func(i *ssa.If) (bool, bool) {
 			return condCmp(func(v ssa.Value) bool {
 				return ssau.DependsOn(v, func(x ssa.Value) bool { return ssau.IsFieldOf(x, "Program", "Code") })
